@@ -91,7 +91,10 @@ def opt(p0, data, model_func, pts, multinom=True,
     upper_bound = [_ if _ is not None else np.inf for _ in upper_bound]
 
     if log_opt:
-        lower_bound, upper_bound = np.log(lower_bound), np.log(upper_bound)
+        # Parameters are positive in log space, so a lower bound <= 0 (or no
+        # lower bound) is no bound at all. np.log of it would be nan.
+        lower_bound = [np.log(_) if _ > 0 else -np.inf for _ in lower_bound]
+        upper_bound = np.log(upper_bound)
 
     p0 = _project_params_down(p0, fixed_params)
 
